@@ -198,6 +198,15 @@ def run_case(case):
                             ([("M", 20)], body)):
                 reads.append({"name": f"e{k}", "pos": p - 19, "cig": cig, "seq": sq, "qual": [30] * len(sq), "mq": 60, "flag": 0})
                 k += 1
+    if case.get("spanread"):
+        # (d) directed: one alignment that starts before the gene region and ends after it (a long read over a short gene), plus one
+        # that starts exactly on the region's first base and one that ends exactly on its last base
+        G = sim.genome
+        a_, b_ = max(0, wide.start - 20), min(sim.L - 2, wide.end + 20)
+        for nm_, s_, e_ in (("span", a_, b_), ("onstart", wide.start, min(b_, wide.start + 60)), ("onend", max(a_, wide.end - 60), wide.end)):
+            if e_ - s_ > 5:
+                sq = G[s_:e_]
+                reads.append({"name": nm_, "pos": s_, "cig": [("M", e_ - s_)], "seq": sq, "qual": [30] * len(sq), "mq": 60, "flag": 0})
     for r in reads:
         a, b = refpile.ref_span(r)
         r["_ref"] = sim.genome[a:b + 1]
@@ -227,6 +236,8 @@ def run_case(case):
         labels.append("no-call-base")
     if any(r["name"].startswith("e") for r in reads):
         labels.append("reads-ending-on-an-insertion-site")
+    if any(r["name"] == "span" for r in reads):
+        labels.append("read-spanning-the-whole-gene-region")
 
     viol = []
     bam = write_reads(os.path.join(d, "r.bam"), sim, reads, "bam")
@@ -253,6 +264,7 @@ def run_case(case):
         viol.append(V("depth-mismatch", ops=kinds, examples=bad[:5], n=len(bad)))
     # alleles and qualities inside the mapped part
     got = table_of(s, positions)
+    got_all = got  # unfiltered: what the re-loads below are compared with
     exp = {}
     for (p, op), lst in obs.items():
         if p not in posset:
@@ -291,19 +303,19 @@ def run_case(case):
     # ineligible reads contribute nothing: removing them leaves the table identical
     if len(elig) < len(reads):
         t2 = table_of(load(ebam), positions)
-        if t2 != got:
-            viol.append(V("ineligible-reads-contribute", diff=str(sorted(set(map(str, t2.items())) ^ set(map(str, got.items())))[:4])[:500]))
+        if t2 != got_all:
+            viol.append(V("ineligible-reads-contribute", diff=str(sorted(set(map(str, t2.items())) ^ set(map(str, got_all.items())))[:4])[:500]))
     # order invariance (un-indexed SAM, permuted) and CIGAR re-encoding invariance
     perm = list(range(len(reads)))
     random.Random(case["perm"]).shuffle(perm)
     samp = write_reads(os.path.join(d, "perm.sam"), sim, reads, "sam", order=perm)
     t3 = table_of(load(samp), positions)
-    if t3 != got:
-        viol.append(V("order-dependent", diff=str(sorted(set(map(str, t3.items())) ^ set(map(str, got.items())))[:4])[:500]))
+    if t3 != got_all:
+        viol.append(V("order-dependent", diff=str(sorted(set(map(str, t3.items())) ^ set(map(str, got_all.items())))[:4])[:500]))
     re = split_cigar(reads, gene, case["perm"])
     t4 = table_of(load(write_reads(os.path.join(d, "split.bam"), sim, re, "bam")), positions)
-    if t4 != got:
-        viol.append(V("cigar-encoding-dependent", diff=str(sorted(set(map(str, t4.items())) ^ set(map(str, got.items())))[:4])[:500]))
+    if t4 != got_all:
+        viol.append(V("cigar-encoding-dependent", diff=str(sorted(set(map(str, t4.items())) ^ set(map(str, got_all.items())))[:4])[:500]))
     # phase record
     frag = collections.defaultdict(list)
     for r in elig:
@@ -368,6 +380,7 @@ def strategy(tier):
         "reads": st.lists(read_desc(), min_size=5, max_size=60),
         "indelpost": st.booleans(),
         "endreads": st.booleans(),
+        "spanread": st.booleans(),
         "perm": st.integers(0, 10 ** 6),
         "sim_seed": st.integers(0, 10 ** 6),
     })
